@@ -175,7 +175,7 @@ def run(ctx):
             if obs != model:
                 res.fail("corr", inp, model, obs, "reader model and FrameReader.read() differ")
             for o in obs:
-                res.count("outcome:" + o[0] + (":" + o[1] if o[0] == "E" else ""))
+                res.count("outcome:" + o[0])
             if impl0 is None:
                 impl0 = obs
         if fr:
